@@ -25,6 +25,33 @@ def consts(profile, max_ops=16, fees=(0, 100, 1000), amts=(1, 2, 3, 5, 8, 13), m
             "Fees": tla_set(fees), "Sim": "TRUE", "Profile": tla_set(profile)}
 
 
+def model_check(sd, max_ops=None):
+    """Exhaustive TLC run of the bounded model (MintGen with Sim = FALSE, MintModel.cfg): the state invariants of MintAPI
+    (NoDoubleSpend, NoInflation, IssueOncePerPayment, OneActiveKeyset, never pending-and-spent) and SpentForever in every
+    reachable state of every history of up to max_ops honest or adversarial operations after the funded start.
+    A violation here is a defect of the specification, not of the code: it is reported as an infrastructure error."""
+    import re as _re
+    from core import tlc as _tlc
+    if max_ops is None:
+        max_ops = 3 if tier() == "quick" else 5
+    cfg = open(os.path.join(sd, "MintModel.cfg")).read()
+    cfg = _re.sub(r"MaxOps = \d+", "MaxOps = %d" % max_ops, cfg)
+    name = "MintModel_%d.cfg" % max_ops
+    open(os.path.join(sd, name), "w").write(cfg)
+    args = ["-coverage", "1"] if tier() == "thorough" else []
+    rc, out, dt = _tlc(sd, "MintGen.tla", name, args, workers=8, timeout=3000, xmx="12g")
+    m = _re.search(r"(\d+) states generated, (\d+) distinct states found", out)
+    if rc != 0 or not m or "No error has been found" not in out:
+        raise Infra("the bounded model violates its own invariants or TLC failed:\n" + out[-3000:])
+    res = {"max_ops": max_ops, "states_generated": int(m.group(1)), "distinct_states": int(m.group(2)), "wall_s": round(dt, 1),
+           "invariants": ["NoDoubleSpend", "NoInflation", "IssueOncePerPayment", "OneActiveKeyset", "NoBoth", "SpentForever"],
+           "constants": "MaxOut=6 MaxMq=2 MaxLq=1 Amts={2,5} Fees={0,1000}, funded start 8+4(K1)+1", "exhaustive": True}
+    if tier() == "thorough":
+        never = _re.findall(r"<(\w+) line \d+, col \d+ to line \d+, col \d+ of module MintGen>: 0:0", out)
+        res["actions_never_taken"] = sorted(set(never))
+    return res
+
+
 def load_events(trace):
     evs = {}
     with open(trace) as f:
@@ -63,9 +90,9 @@ def evaluate(prop, histories, trace, res, d, extra_samples=None):
 
 def check(prop, profile=None, num=None, max_ops=16, fees=(0, 100, 1000), probe="all", policy="pct1", gen_overrides=None,
           extra_histories=None, level="model_checking", rule=None, assumptions=None, mpp=False, collect=False,
-          given=None, extra_cov=None, malformed=0, http=False, limits=None, mpp_set=(False,)):
+          given=None, extra_cov=None, malformed=0, http=False, limits=None, mpp_set=(False,), with_model=False, sub=""):
     t0 = time.time()
-    d = rundir("%s_%s" % (prop, tier()))
+    d = rundir("%s%s_%s" % (prop, sub, tier()))
     sd = spec_copy(d)
     profile = profile or ALL_ACTIONS
     if num is None:
@@ -121,6 +148,11 @@ def check(prop, profile=None, num=None, max_ops=16, fees=(0, 100, 1000), probe="
         "known_findings_seen": [k["key"] for k in known],
         "exhaustive": False,
     }
+    if with_model:
+        mc = model_check(sd)
+        cov["bounded_model"] = mc
+        cov["states"] += mc["distinct_states"]
+        cov["transitions"] += mc["states_generated"]
     if extra_cov:
         cov.update(extra_cov)
     if collect:
